@@ -98,3 +98,86 @@ func c07RawQ(c *mon.Case, sp c07Spec) {
 	c.Nontrivial()
 	c.Sig("rawq|q%d|n%d", q, np)
 }
+
+// c07Expired: the survey time runs from Send and ends the survey whether or not the application has
+// called Recv meanwhile.  Variant "queued": responses arrived in time but were not collected before
+// the survey time elapsed; variant "late": a response arrives after it elapsed.  Either way the
+// Recv that follows fails with the protocol-state error, promptly, and delivers nothing.
+func c07Expired(c *mon.Case, sp c07Spec) {
+	s := hx.MustSock(c, "surveyor")
+	const T = 40 * time.Millisecond
+	s.SetOption(mangos.OptionSurveyTime, T)
+	name := hx.Uniq("c07e")
+	L := vt.L(name)
+	c.Cleanup(func() { vt.Forget(name) })
+	if err := s.Listen(vt.Addr(name)); err != nil {
+		c.Inconclusive("setup: %v", err)
+		return
+	}
+	w := hx.WatchPipes(s)
+	r := L.Connect()
+	if !hx.WaitAttached(c, w, 1, "respondent") {
+		return
+	}
+	type ctxT interface {
+		Send([]byte) error
+		Recv() ([]byte, error)
+		SetOption(string, interface{}) error
+	}
+	var cx ctxT = s
+	if sp.NCtx > 1 {
+		x, err := s.OpenContext()
+		if err != nil {
+			c.Violate("surveyor/open-context-error", "%v", err)
+			return
+		}
+		x.SetOption(mangos.OptionSurveyTime, T)
+		cx = x
+	}
+	variant := []string{"queued", "late"}[sp.NOps%2]
+	sk := mon.Go("Send", func() (interface{}, error) { return nil, cx.Send([]byte("survey-" + name)) })
+	if !c.AwaitOrViolate("surveyor/send-stuck", "survey Send", sk.Done, mon.AwaitOpts{MaxTimer: T}) {
+		return
+	}
+	tSent := mon.Now() // the survey time started before this
+	if !c.AwaitOrViolate("surveyor/survey-not-broadcast", "the survey reaching the respondent", func() bool { return r.SentCount() >= 1 }, mon.AwaitOpts{MaxTimer: T}) {
+		return
+	}
+	wire := r.SentLog()[0].Wire()
+	if len(wire) < 4 {
+		c.Violate("surveyor/queued-survey-mangled", "survey went out as %x", wire)
+		return
+	}
+	id := wire[:4]
+	if variant == "queued" {
+		r.Inject(hx.Cat(id, []byte("in-time-1")))
+		r.Inject(hx.Cat(id, []byte("in-time-2")))
+		mon.Await(func() bool { return r.Pending() == 0 }, mon.AwaitOpts{Watchdog: 2 * time.Second})
+	}
+	mon.Sleep(3 * T)
+	if variant == "late" {
+		r.Inject(hx.Cat(id, []byte("too-late")))
+		mon.Await(func() bool { return r.Pending() == 0 }, mon.AwaitOpts{Watchdog: 2 * time.Second})
+		mon.Sleep(time.Millisecond)
+	}
+	if mon.Now()-tSent < T {
+		c.Inconclusive("the pause did not outlast the survey time")
+		return
+	}
+	rk := mon.Go("Recv", func() (interface{}, error) { b, e := cx.Recv(); return b, e })
+	if !c.AwaitOrViolate("surveyor/recv-after-expiry-blocked", "Recv issued (first Recv of this survey) well after the survey time "+T.String()+" had elapsed ("+variant+")", rk.Done, mon.AwaitOpts{}) {
+		return
+	}
+	v, err, _ := rk.Result()
+	if err == nil {
+		c.Violate("surveyor/delivered-after-expiry:"+variant, "Recv issued %v after Send returned (survey time %v) returned %q; after expiry it must fail with the protocol-state error", mon.Now()-tSent, T, v)
+		return
+	}
+	if err != mangos.ErrProtoState {
+		c.Violate("surveyor/recv-after-expiry-error", "Recv after expiry returned %v, want ErrProtoState", err)
+		return
+	}
+	c.Count("recv_after_expiry_protostate", 1)
+	c.Nontrivial()
+	c.Sig("expired|%s|%d", variant, sp.NCtx)
+}
